@@ -38,6 +38,12 @@ QUERIES = {
     "poscar": lambda c: proj_poscar(c.to_poscar_string()),
     "as_P1": lambda c: c.as_P1(),
     "cartesian_symops": lambda c: c.cartesian_symmetry_operations(),
+    # further read-only queries of the public API (reflection lists are refused for rhombohedral axes - then a fresh crystal refuses too)
+    "unique_reflections": lambda c: proj_reflections(c.unique_reflections()),
+    "molecule_dict": lambda c: c.molecule_dict(),
+    "group_surroundings": lambda c: c.atom_group_surroundings([0, 1], radius=4.0),
+    "site_props": lambda c: (c.nsites, list(c.site_labels), np.asarray(c.site_positions), str(c.space_group.symbol),
+                             [int(o.integer_code) for o in c.symmetry_operations]),
 }
 MUTATORS = {
     "to_H": lambda c: c.choose_trigonal_lattice("H"),
@@ -53,6 +59,13 @@ NOT_TRIGONAL = ("disorder_P1",)
 def alphabet_for(kind):
     """the same alphabet everywhere; for groups without an R lattice the trigonal switches are refused requests (see step)"""
     return ALPHABET
+
+
+def proj_reflections(r):
+    """reflection list in a canonical order (the library lists reflections of equal |q| in whatever order its sort leaves them)"""
+    hkl = np.asarray(r.hkl)
+    order = np.lexsort(hkl.T[::-1])
+    return {"hkl": hkl[order], "q": np.asarray(r.q)[order], "q_mag": np.asarray(r.q_mag)[order]}
 
 
 # ---- projections of exported text through the reference readers ---------------------------------
@@ -211,6 +224,13 @@ def pristine_main(psfile, out):
     pickle.dump(res, open(out, "wb"))
 
 
+def exact_public_key(c):
+    """the public state bit for bit (no rounding): cell vectors, coordinates, occupancies, group, elements, labels"""
+    ps = xtal.public_state(c)
+    return xtal.digest(repr((ps["direct"].tobytes(), ps["pos"].tobytes(), None if ps["occ"] is None else ps["occ"].tobytes(),
+                             ps["number"], ps["choice"], ps["Z"], ps["labels"])))
+
+
 def pristine_answers(c):
     import pickle
     import subprocess
@@ -318,10 +338,10 @@ def step(part, c, op, hist, kind, check=True):
         answer(fn, c)
         return c
     part.tr()
-    pub0 = xtal.public_digest(c)
+    pub0 = exact_public_key(c)
     a1 = answer(fn, c)
     post_digest_holder["d"] = xtal.state_digest(c)
-    if xtal.public_digest(c) != pub0:
+    if exact_public_key(c) != pub0:      # bit for bit: a query that rewrites the cell "to within rounding" has modified it
         part.fail("query-mutates:%s:%s" % (op, kind), "query %s changed cell/space group/asymmetric unit (history %s)" % (op, hist), case)
     fresh = xtal.fresh_from_state(xtal.public_state(c))
     af = answer(fn, fresh)
@@ -454,7 +474,7 @@ def run(ctx):
     max_depth = 8 if ctx.thorough else 6
     cap = 20000 if ctx.thorough else 1500
     ctx.bounds = {"alphabet": ALPHABET, "structures": kinds, "max_depth": max_depth, "state_cap": cap}
-    ctx.rule = ("level-synchronous BFS over operation lists (14 queries with fixed arguments, 2 trigonal switches, 1 refused request, deepcopy) on real "
+    ctx.rule = ("level-synchronous BFS over operation lists (18 queries with fixed arguments, 2 trigonal switches, 1 refused request, deepcopy) on real "
                 "Crystal objects; state = digest of vars(obj) recursively (public fields + properties + all memo attributes); every "
                 "transition compares the answer with a freshly built crystal; distinct = canonical states")
     ctx.assumptions = ["methods read only instance state reachable from vars(obj) (so equal digests have equal futures); state shared between objects is "
